@@ -95,7 +95,23 @@ func (g *gen) genParts(root *gorm.DB) []part {
 			if g.r.Bool() {
 				q = "c1, COALESCE(" + col + ", ?) AS z"
 			}
-			parts = append(parts, part{kind: "select", desc: fmt.Sprintf("Select(%q, %#v)", q, l.val), leaves: []*leaf{l}, apply: func(db *gorm.DB) *gorm.DB { return db.Select(q, l.val) }})
+			// the select list through Select or Distinct, its argument positional or named (sql.Named / map)
+			form := g.r.Intn(6)
+			qn := strings.Replace(q, "?", "@v", 1)
+			switch form {
+			case 1:
+				parts = append(parts, part{kind: "select", desc: fmt.Sprintf("Select(%q, sql.Named(v, %#v))", qn, l.val), leaves: []*leaf{l}, apply: func(db *gorm.DB) *gorm.DB { return db.Select(qn, sql.Named("v", l.val)) }})
+			case 2:
+				parts = append(parts, part{kind: "select", desc: fmt.Sprintf("Select(%q, map{v: %#v})", qn, l.val), leaves: []*leaf{l}, apply: func(db *gorm.DB) *gorm.DB { return db.Select(qn, map[string]interface{}{"v": l.val}) }})
+			case 3:
+				parts = append(parts, part{kind: "select", desc: fmt.Sprintf("Distinct(%q, %#v)", q, l.val), leaves: []*leaf{l}, apply: func(db *gorm.DB) *gorm.DB { return db.Distinct(q, l.val) }})
+			case 4:
+				parts = append(parts, part{kind: "select", desc: fmt.Sprintf("Distinct(%q, sql.Named(v, %#v))", qn, l.val), leaves: []*leaf{l}, apply: func(db *gorm.DB) *gorm.DB { return db.Distinct(qn, sql.Named("v", l.val)) }})
+			case 5:
+				parts = append(parts, part{kind: "select", desc: fmt.Sprintf("Distinct().Select(%q, map{v: %#v})", qn, l.val), leaves: []*leaf{l}, apply: func(db *gorm.DB) *gorm.DB { return db.Distinct().Select(qn, map[string]interface{}{"v": l.val}) }})
+			default:
+				parts = append(parts, part{kind: "select", desc: fmt.Sprintf("Select(%q, %#v)", q, l.val), leaves: []*leaf{l}, apply: func(db *gorm.DB) *gorm.DB { return db.Select(q, l.val) }})
+			}
 		case k == 7 && g.r.Bool():
 			// association join whose ON conditions come from a handle with one to three conditions
 			n := g.r.Range(1, 3)
